@@ -41,6 +41,18 @@ def record(alg, N, oracle=True):
             return rec
     if not oracle:
         return structure_only(rec, P, mats, N)
+    # the intermediate states of the fold (Fold.tla: M, the swept matrix, the cut), which the same getter exposes through its
+    # documented options; asked of the same object after the default forms
+    for name, kw in (("fullAdj", dict(only_upper=False, include_opposing_neighbours=False)), ("sweptAdj", dict(only_upper=False, include_opposing_neighbours=True)),
+                     ("halfAdj", dict(only_upper=True, include_opposing_neighbours=False))):
+        try:
+            with quiet():
+                m = g.get_voronoi_adjacency(**kw).tocoo()
+            rec[name] = [[int(i), int(j)] for i, j, v in zip(m.row, m.col, m.data) if v]
+            rec[name + "Shape"] = [int(x) for x in m.shape]
+        except Exception as ex:
+            rec["err"] = f"get_voronoi_adjacency({name}):{type(ex).__name__}"
+            return rec
     geo = s3_geometry(P)
     dist_vc = ValueClasses(rel=1e-9, abs_=1e-11)
     area_vc = ValueClasses(rel=0.0, abs_=1e-8)           # cosine-law angle sums vs Van Oosterom-Strackee: agree to ~1e-10
